@@ -8,7 +8,8 @@ def main():
               dict(pkg='compiler/internal/verifrt/fe', rel='internal/verifrt/fe', harnesses=['HarnessC14LitIDs'], max_paths=100000),
               dict(pkg='compiler/internal/codegen/qbe_embeddings', rel='internal/codegen/qbe_embeddings', harnesses=['HarnessC14EmitOrder']),
               dict(pkg='compiler/internal/codegen/wasm', rel='internal/codegen/wasm', harnesses=['HarnessC14WasmOrder']),
-              dict(pkg='compiler/internal/mir/gen', rel='internal/mir/gen', harnesses=['HarnessC14VTableOrder'])]
+              dict(pkg='compiler/internal/mir/gen', rel='internal/mir/gen', harnesses=['HarnessC14VTableOrder']),
+              dict(pkg='compiler/internal/pipeline', rel='internal/pipeline', harnesses=['HarnessC14ImportResolution'], max_paths=100000, wall_timeout=1700)]
     groups += [dict(pkg='compiler/internal/pipeline', rel='internal/pipeline', harnesses=['HarnessC15Schedule%d' % k], max_paths=400000, max_instrs=200000000, wall_timeout=2400) for k in (5,)]
     rc = gocheck.run('C14', 'other', groups, gocheck.GOSYM_ASSUME + [
         'sort.Slice is executed as the real library does (sort.pdqsort_func interpreted from source); sort.SliceStable as a stable insertion sort',
